@@ -691,6 +691,19 @@ func c07Seqs(job, tier string) ([][]c07Frame, string) {
 				}
 			}
 		}
+		if i == 0 {
+			// every symbol as the very last byte of the option area, behind no-ops and behind a
+			// complete option (4- and 8-byte areas)
+			for _, x := range alpha {
+				for _, o := range [][]byte{{1, 1, 1, x}, {2, 4, 5, 180, 1, 1, 1, x}, {1, 1, 1, 1, 1, 1, 1, x}, {3, 3, 2, x}} {
+					ip4 := func(payload []byte) []byte { return ref.BuildIPv4(p4, s4, ref.ProtoTCP, 99, 0, 0, 64, payload) }
+					seqs = append(seqs,
+						[]c07Frame{{Proto: ref.EtherIPv4, Data: ip4(ref.BuildTCP(uint16(47000+int(x)), c07ListenPort, 5, 0, ref.SYN, 1000, o, nil, p4, s4))}},
+						[]c07Frame{{Proto: ref.EtherIPv4, Data: ip4(ref.BuildTCP(40000, c07ListenPort, connSeq, connAck, ref.ACK|ref.PSH, 1000, o, []byte("d"), p4, s4))}},
+						[]c07Frame{{Proto: ref.EtherIPv4, Data: ip4(ref.BuildTCP(uint16(47000+int(x)), 81, 5, 0, ref.SYN, 1000, o, nil, p4, s4))}})
+				}
+			}
+		}
 		return seqs, "all 4-byte TCP option areas over a 12-symbol alphabet on SYNs and data segments"
 	case "noise":
 		for _, f := range c07Noise() {
